@@ -27,4 +27,5 @@ META = dict(
         "means the same for bytes and characters",
     ],
     BUDGET={"quick": 50.0, "thorough": 840.0},
+    CASE_TIMEOUT={"quick": 90, "thorough": 300},
 )
